@@ -27,7 +27,7 @@ TCase == /\ Ev("case") /\ PrintT(<<"CASE", l>>)
 
 TRunCall  == Ev("runcall") /\ T.r \in Runs /\ RunCall(T.r)
 TRunRet   == /\ Ev("runret") /\ T.r \in Runs /\ rpc[T.r] = "returned"
-             /\ (T.panic = "already") <=> (rres[T.r] = "panic-already")
+             /\ (T.panic \in {"already", "refused"}) <=> (rres[T.r] = "panic-already")
              /\ (T.panic = "other") <=> (rres[T.r] = "panic-close")
              /\ UNCHANGED vars
 TStopCall == Ev("stopcall") /\ T.t \in Stops /\ StopCall(T.t)
